@@ -127,6 +127,8 @@ type End struct {
 	CloseStep int  // scheduler step at which Close was called (0 = open)
 	CloseTime time.Duration
 	NoPark    bool // ops never park (used during handshakes outside the schedule)
+	// CloseDelay makes Close return only after this much (simulated) time
+	CloseDelay time.Duration
 	// RGate, if set, must return true for a Read to make progress (a peer
 	// that stops draining). Evaluated with the simulator lock held.
 	RGate func() bool
@@ -500,8 +502,16 @@ func (e *End) Close() error {
 	if e.wTimer != nil {
 		e.wTimer.Stop()
 	}
+	linger := e.CloseDelay
 	s.mu.Unlock()
 	s.kick()
+	if linger > 0 && !s.draining {
+		// a transport whose Close lingers (SO_LINGER, a TLS close_notify that cannot
+		// be written): the effects above are immediate, the call itself returns late
+		s.Stats["fault.close-lingers"]++
+		time.Sleep(linger)
+		s.kick()
+	}
 	return nil
 }
 
